@@ -1,6 +1,7 @@
 use jrsonnet_evaluator::{
-	bail,
+	bail, ensure_sufficient_stack,
 	manifest::{escape_string_json_buf, ManifestFormat, ToStringFormat},
+	stack::check_depth,
 	Result, Val,
 };
 
@@ -20,6 +21,8 @@ impl PythonFormat {
 
 impl ManifestFormat for PythonFormat {
 	fn manifest_buf(&self, val: Val, buf: &mut String) -> Result<()> {
+		// Counted against the stack limit: a value that contains itself must end in an error
+		let _depth = check_depth()?;
 		match val {
 			Val::Bool(true) => buf.push_str("True"),
 			Val::Bool(false) => buf.push_str("False"),
@@ -35,7 +38,7 @@ impl ManifestFormat for PythonFormat {
 					if i != 0 {
 						buf.push_str(", ");
 					}
-					self.manifest_buf(el, buf)?;
+					ensure_sufficient_stack(|| self.manifest_buf(el, buf))?;
 				}
 				buf.push(']');
 			}
@@ -53,7 +56,7 @@ impl ManifestFormat for PythonFormat {
 					escape_string_json_buf(&field, buf);
 					buf.push_str(": ");
 					let value = obj.get(field)?.expect("field exists");
-					self.manifest_buf(value, buf)?;
+					ensure_sufficient_stack(|| self.manifest_buf(value, buf))?;
 				}
 				buf.push('}');
 			}
